@@ -45,9 +45,10 @@ type scenario struct {
 	SettleMS   int                    `json:"settle_ms"`
 	MaxStackMB int                    `json:"max_stack_mb"`
 	// engine mode: go through engine.New / Parse / Run (the embeddable API the CLI uses)
-	Engine     bool   `json:"engine"`
-	ContextDir string `json:"context_dir"` // "" = in-memory file cache; else a directory holding the files (abs or relative)
-	Cwd        string `json:"cwd"`         // chdir here first
+	Engine      bool     `json:"engine"`
+	ContextDir  string   `json:"context_dir"`  // "" = in-memory file cache; else a directory holding the files (abs or relative)
+	Cwd         string   `json:"cwd"`          // chdir here first
+	PreContexts []string `json:"pre_contexts"` // engine mode: context directories loaded and parsed (and discarded) in this process before the real one
 }
 
 type runResult struct {
@@ -343,6 +344,14 @@ func engineParse(book *scriptBook, sc *scenario) (engine.Workflow, error) {
 	eng, err := engine.New(cfg)
 	if err != nil {
 		return nil, err
+	}
+	for _, dir := range sc.PreContexts {
+		// what an earlier load of ANOTHER directory with the same relative file names leaves behind must not matter
+		if pfc, perr := loadfile.NewFileCacheUsingContext(dir, map[string]string{"workflow": sc.Main}); perr == nil {
+			if perr = pfc.LoadContext(); perr == nil {
+				_, _ = eng.Parse(pfc, "workflow")
+			}
+		}
 	}
 	var fc loadfile.FileCache
 	if sc.ContextDir == "" {
